@@ -41,6 +41,7 @@ def make_spec(st, idx, tier):
     spec = C.state_spec(st, tier, wk, PROFILE, FEED, min_units=24)
     spec["profile"]["features"] = []
     spec["profile"]["fixed_effects"] = []
+    C.arrival_polls(st, spec)
     return spec
 
 
